@@ -14,4 +14,7 @@ def check(run):
                        "distinct_nontrivial = distinct (opcode, cycles, flags) tuples", "C03")
 
 
+    cpu_common.rom_traces(run, "C03")
+
+
 replay = cpu_common.replay
